@@ -171,6 +171,7 @@ type Sim struct {
 	Contended int // lock requests that found the lock unavailable at request time
 	Probes    map[string]int
 	lastTask  int
+	keep      []any
 }
 
 var cur *Sim
@@ -781,6 +782,30 @@ func W[T any](p *T, label string) {
 	s := must()
 	s.point(request{kind: KWrite, obj: unsafe.Pointer(p), label: label})
 }
+
+// AppendProbe is inserted before "x = append(x, ...)" on a probed location: if
+// the append will write into spare capacity of the current backing array,
+// that slot is a probed write (a snapshot handed out earlier may alias it).
+func AppendProbe[T any](sl []T, label string) {
+	s := must()
+	if s.aborted {
+		return
+	}
+	s.keep = append(s.keep, sl) // keep every backing array alive: addresses are never reused within a run
+	if len(sl) < cap(sl) {
+		slot := &sl[: len(sl)+1 : len(sl)+1][len(sl)]
+		s.point(request{kind: KWrite, obj: unsafe.Pointer(slot), label: label + "[spare slot]"})
+	}
+}
+
+// ReadAddr is a probed read of an arbitrary address (the harness reading an
+// element of a snapshot, as user code would).
+func (s *Sim) ReadAddr(p unsafe.Pointer, label string) {
+	s.point(request{kind: KRead, obj: p, label: label})
+}
+
+// Keep pins an object for the duration of the run.
+func (s *Sim) Keep(x any) { s.keep = append(s.keep, x) }
 
 // Go replaces a go statement in instrumented code.
 func Go(fn func()) {
